@@ -14,7 +14,10 @@ MANIFEST = dict(
          "observes on the wire), C17_init_state_accepted_reply_is_authenticated / "
          "C17_init_state_empty_reply_is_authenticated (start-up read of vls-util init_state: a reply, also one without "
          "records, is accepted only with the tag the server made for exactly that list under this read's nonce; compared "
-         "with the real init_state on genuine, replayed and hop-modified replies), C17_same_shape_modification_detected, C17_truncation_detected, and "
+         "with the real init_state on genuine, replayed and hop-modified replies), C17_returned_records_are_tagged / "
+         "C17_signed_version_binding (records coming back to PrivClient::get and in put conflicts, versions i64 of either "
+         "sign: nothing is handed back without its own record tag; compared with the real client against a storage server "
+         "that fabricates records under correct reply tags), C17_same_shape_modification_detected, C17_truncation_detected, and "
          "C17_collisions_are_known (every collision of the MACed bytes is one of three framing classes).  The "
          "property at full strength is false of the code (nothing is length-delimited): C17_refuted_* give the "
          "witnesses, which the harness replays on the real ExternalPersistHelper / compute_shared_hmac / "
@@ -47,6 +50,8 @@ PINNED = ["C17_accepted_value_is_tagged", "C17_value_binding_outside_known", "C1
           "C17_replayed_reply_refused_in_fresh_history", "C17_stale_reply_accepted_without_fresh_nonce",
           "C17_init_state_accepts_only_tagged", "C17_init_state_accepted_reply_is_authenticated",
           "C17_init_state_empty_reply_is_authenticated", "C17_init_state_nonvacuous",
+          "C17_returned_records_are_tagged", "C17_short_record_never_returned", "C17_signed_version_binding",
+          "C17_negative_version_nonvacuous",
           "C17_refuted_value_key_version_shift", "C17_refuted_set_key_version_shift",
           "C17_refuted_set_merge_split", "C17_refuted_nonce_key_shift", "C17_refuted_put_tag_answers_read",
           "C17_set_binding_refuted", "C17_nonvacuous"]
@@ -150,10 +155,28 @@ def run(res):
     # the start-up read rule (init_state; new_nonce + get + check_hmac): every delivered reply of the helper paths
     init_reads = [(c, o) for c in sessions for o in c["ops"] if o["op"] == "read" and o.get("coq")]
     init_ans = coq_answers([o["coq"] for _, o in init_reads], "c17_init")
+    # records coming back from a (forging) store: remove_and_check_hmacs over i64 versions
+    open_ops = [(c, o) for c in sessions for o in c["ops"]
+                if o["op"] in ("forged-get", "forged-conflict", "stale-put", "gap-put-new-key") and o.get("coq")]
+    open_ans = coq_answers([o["coq"] for _, o in open_ops], "c17_open")
+    open_items = []   # per op: list of None (short) | (key, msg, claimed tag, value)
+    for a in open_ans:
+        items, i = [], 0
+        while i < len(a):
+            if a[i] == b"\x00":
+                items.append(None)
+                i += 1
+            else:
+                items.append((a[i + 1], a[i + 2], a[i + 3], a[i + 4]))
+                i += 5
+        open_items.append(items)
+    open_pairs = [(it[0], it[1]) for items in open_items for it in items if it]
     pairs = [(a[0], a[1]) for a in answers if a]
-    all_tags = reference_tags(pairs + [(a[0], a[1]) for a in init_ans], res.seed, res.tier)
+    init_pairs = [(a[0], a[1]) for a in init_ans]
+    all_tags = reference_tags(pairs + init_pairs + open_pairs, res.seed, res.tier)
     tags = iter(all_tags[:len(pairs)])
-    init_tags = all_tags[len(pairs):]
+    init_tags = all_tags[len(pairs):len(pairs) + len(init_pairs)]
+    open_tags = iter(all_tags[len(pairs) + len(init_pairs):])
 
     # ---- correspondence: reference HMAC over the model's bytes vs. what the real functions returned
     bad = []
@@ -209,7 +232,9 @@ def run(res):
     # ---- reads over the wire: the client read paths behind a recording / replaying man in the middle;
     #      the premise of C17_replayed_reply_refused_in_fresh_history (nonces_fresh, evaluated in Coq on the
     #      nonces seen on the wire) and its conclusion, on the implementation
-    NET_INPUT = {"tampered-reply-accepted": "a reply modified by the hop between signer and storage is accepted: the accepted "
+    NET_INPUT = {"forged-record-returned": "a record fabricated by the storage server (it has the shared secret, not the record "
+                                           "secret) is handed back as data: content, key and version are not what the signer wrote",
+                 "tampered-reply-accepted": "a reply modified by the hop between signer and storage is accepted: the accepted "
                                             "record list is not the one the server authenticated",
                  "replayed-reply-accepted": "a reply recorded at an earlier read is accepted as the answer to a later read",
                  "reply-under-other-nonce-accepted": "a reply made under another nonce than the one of the request is accepted",
@@ -240,7 +265,8 @@ def run(res):
             f = sorted([f for f in c["findings"] if f["kind"] == k], key=lambda f: not f.get("rolled_back"))[:1]
             net_violations.append((0 if f and f[0].get("rolled_back") else 1, len(net_violations), ("%s (client path %s; premise nonces_fresh of C17_replayed_reply_refused_in_fresh_history "
                                "evaluates to %s on the nonces this client sent)" % (NET_INPUT[k], c["path"], str(coq_fresh).lower()),
-                               dict(strip(c), finding=f[0] if f else None, origin="net:" + k, **{"class": c["path"]}))))
+                               dict(strip(c), finding=f[0] if f else None, origin="net:" + k,
+                                    **{"class": c["path"] + ":" + k.split("-")[0]}))))
         for f in c["findings"]:
             if f["kind"] not in NET_INPUT:
                 machinery.append(("the genuine reply of the storage service was not accepted / the read failed (%s, client path %s)"
@@ -262,6 +288,37 @@ def run(res):
             net_violations.append((0 if not m else 2, len(net_violations),
                                    (w, dict({k: v for k, v in strip(c).items() if k != "ops"}, read=strip(o),
                                             origin="net:init-state-model", **{"class": c["path"] + "/model"}))))
+    # remove_and_check_hmacs model vs PrivClient::get / the conflict branch of PrivClient::put
+    open_bad = []
+    for (c, o), items in zip(open_ops, open_items):
+        fail_at = None
+        for i, it in enumerate(items):
+            if it is None or next(open_tags) != it[2]:
+                if fail_at is None:
+                    fail_at = i
+        out = o["outcome"]
+        if out == "stored" or out.startswith("error"):
+            if out.startswith("error"):
+                machinery.append(("a forged / conflicting reply ended in an unexpected client error", dict(strip(c), read=strip(o))))
+            continue
+        if fail_at is None:
+            model = [it[3].hex() for it in items]
+            code = None if o["returned"] is None else [r[2] for r in o["returned"]]
+            good = (code == model)
+        else:
+            k, v, _ = o["delivered"][fail_at]
+            good = (out == "InvalidHmac:%s:%s" % (k.encode().hex(), v))
+            model = "InvalidHmac at record %d (%s, %s)" % (fail_at, k, v)
+        if not good:
+            open_bad.append((c, o, model))
+    for c, o, model in open_bad[:2]:
+        if not any(v[2][1].get("session") == c["session"] and "forged" in v[2][1].get("origin", "") for v in net_violations):
+            net_violations.append((2, len(net_violations),
+                                   ("%s disagrees with Model.Hmac.remove_and_check_hmacs on the records %s: code %s / %s, model %s"
+                                    % ("PrivClient::get" if o["op"] == "forged-get" else "PrivClient::put (conflict branch)",
+                                       json.dumps(o["delivered"]), o["outcome"], json.dumps(o["returned"]), json.dumps(model)),
+                                    dict({k: v for k, v in strip(c).items() if k != "ops"}, read=strip(o),
+                                         origin="net:open-model", **{"class": c["path"] + "/open-model"}))))
     violations = [v for _, _, v in sorted(net_violations, key=lambda x: x[:2])] + violations
     for w in mon.get("WITNESS", []):
         if not w["collides"]:
@@ -322,7 +379,11 @@ def run(res):
                 "{put next versions, genuine read (also of a never-written store), read answered with a reply recorded at "
                 "an earlier read, read forwarded under another nonce}, then one read per reply modification by the hop (drop "
                 "all records with the old tag / no tag / the empty-state tag of another nonce, drop first/last, value bit, "
-                "version, key swap, reorder, duplicate, tag bit, no tag, short tag); every delivered reply of the helper "
+                "version, key swap, reorder, duplicate, tag bit, no tag, short tag), and on the PrivClient path a forging "
+                "storage server (right reply tag, fabricated record: versions -1, -2, i64::MIN, i64::MAX, a never-written "
+                "and an earlier version, a never-written key, another key; bytes of its choice, empty, 31 bytes, or the stored "
+                "bytes of another entry) in get replies and in the conflict list of a refused put, plus honest conflicts, "
+                "each a COpen case for Model.Hmac.remove_and_check_hmacs; every delivered reply of the helper "
                 "paths is also a CInit case for Model.Hmac.init_state; non-trivial: the session has a genuine and an attacked read; distinct by operation "
                 "list incl. the nonces sent (which come from the implementation's OS randomness, not from VERIF_SEED)"
                 % (n_mon, n_net),
@@ -333,6 +394,8 @@ def run(res):
         "net_nonce_histories_fresh_in_coq": sum(1 for a in nonce_ans if a[0][0]),
         "net_init_state_replies_compared_with_model": len(init_reads),
         "net_init_state_model_disagreements": len(init_bad),
+        "net_forged_replies_compared_with_model": len(open_ops),
+        "net_forged_replies_model_disagreements": len(open_bad),
         "observation_prefix_not_authenticated": "the reply tag does not cover the key prefix of the request: a hop that "
             "rewrites the prefix obtains the server's authentic 'no records' reply for the right nonce, and every client "
             "path accepts it (harness_stats hmac-net *:prefix-swapped:accepted); the reply does authenticate under the "
